@@ -122,11 +122,13 @@ class DataType:
 
         # Case 3: Numeric ladder (bool → int → float → complex)
         if self.is_numeric and isinstance(value, (int, float, complex, bool)):
-            if self.kind is complex or vtype is complex:
+            # rung of the value: instances of subclasses (e.g. IntEnum) count as their builtin base
+            vkind = infer_kind(value)
+            if self.kind is complex or vkind is complex:
                 new_kind = complex
-            elif self.kind is float or vtype is float:
+            elif self.kind is float or vkind is float:
                 new_kind = float
-            elif self.kind is int or vtype is int:
+            elif self.kind is int or vkind is int:
                 new_kind = int
             else:
                 new_kind = bool
@@ -137,7 +139,7 @@ class DataType:
 
         # Case 4: Temporal ladder (date → datetime)
         if self.is_temporal and isinstance(value, (date, datetime)):
-            if self.kind is datetime or vtype is datetime:
+            if self.kind is datetime or infer_kind(value) is datetime:
                 new_kind = datetime
             else:
                 new_kind = date
